@@ -1,6 +1,6 @@
 (* C12: trading fees are exact and routed to the right pools.  Statements only. *)
 From MP.Model Require Import Prelude U128 SInt Feed Vamm VammOps Token World Engine Runtime.
-From MP.Proofs Require Import Tactics SIntFacts EngineArith CloseFacts.
+From MP.Proofs Require Import Tactics SIntFacts EngineArith CloseFacts MoreFacts.
 
 Theorem C12_fee_amounts : forall v quote toll spread, 0 <= quote ->
   q_calc_fee v quote = Ok (toll, spread) ->
@@ -25,3 +25,68 @@ Theorem C12_fees_only_to_pools : forall w from vamm notional msgs spread toll a,
   a <> e_ifund (ec (w_eng w)) -> a <> e_feepool (ec (w_eng w)) -> transfers_to a msgs = 0.
 Proof. exact transfers_to_fees. Qed.
 Print Assumptions C12_fees_only_to_pools.
+
+(* OpenPosition records margin x leverage / D - the quote amount requested to trade - as the notional the
+   fee will be charged on, and marks the fee as not yet paid *)
+Theorem C12_open_records_notional : forall w t v s m l lim f w' subs,
+  e_open_position w t v s m l lim f = Ok (w', subs) ->
+  exists tm, e_tmp (w_eng w') = Some tm /\ ts_vamm tm = v /\ ts_trader tm = t /\ ts_side tm = s /\
+    ts_open_notional tm = m * l / e_dec (ec (w_eng w)) /\ ts_leverage tm = l /\ ts_margin_amount tm = m /\
+    ts_fees_paid tm = false /\ ts_mtv tm = szero.
+Proof. exact open_position_tmp. Qed.
+Print Assumptions C12_open_records_notional.
+
+(* the increase / reduce reply charges the fee on exactly that notional, as its last messages, unless a
+   reversal's first leg already charged it - then it emits no fee message at all *)
+Theorem C12_trade_fee_once : forall w i o id w' subs tm,
+  update_position_reply w i o id = Ok (w', subs) -> e_tmp (w_eng w) = Some tm ->
+  exists msgs1,
+    (ts_fees_paid tm = true -> subs = msgs1 ++ []) /\
+    (ts_fees_paid tm = false -> exists w1 fmsgs spread toll,
+        w_vamms w1 = w_vamms w /\ ec (w_eng w1) = ec (w_eng w) /\ w_tok w1 = w_tok w /\
+        transfer_fees w1 (ts_trader tm) (ts_vamm tm) (ts_open_notional tm) = Ok (fmsgs, spread, toll) /\
+        subs = msgs1 ++ fmsgs).
+Proof. exact update_position_reply_fees. Qed.
+Print Assumptions C12_trade_fee_once.
+
+(* a reversal charges once, on the requested notional, in its first leg, and hands the re-opening leg a
+   record marked as paid *)
+Theorem C12_reversal_fee_once : forall w i o w' subs tm,
+  reverse_position_reply w i o = Ok (w', subs) -> e_tmp (w_eng w) = Some tm ->
+  exists fmsgs spread toll last,
+    transfer_fees w (ts_trader tm) (ts_vamm tm) (ts_open_notional tm) = Ok (fmsgs, spread, toll) /\
+    subs = fmsgs ++ [last] /\
+    ((exists amt, last = execute_transfer (ts_trader tm) amt) /\ e_tmp (w_eng w') = None \/
+     (exists tm', e_tmp (w_eng w') = Some tm' /\ ts_fees_paid tm' = true /\
+        last = internal_increase_position (ts_vamm tm) (ts_side tm) (ts_open_notional tm') 0)).
+Proof. exact reverse_position_reply_fees. Qed.
+Print Assumptions C12_reversal_fee_once.
+
+(* deposits, withdrawals, funding settlements and liquidations move nothing to the fee pool *)
+Theorem C12_deposit_no_fee : forall w t v amount funds w' msgs,
+  e_deposit_margin w t v amount funds = Ok (w', msgs) -> e_feepool (ec (w_eng w)) <> A_ENGINE ->
+  paid_to (e_feepool (ec (w_eng w))) msgs = 0.
+Proof. exact deposit_no_fee. Qed.
+Print Assumptions C12_deposit_no_fee.
+Theorem C12_withdraw_no_fee : forall w t v amount w' msgs,
+  e_withdraw_margin w t v amount = Ok (w', msgs) -> t <> e_feepool (ec (w_eng w)) ->
+  paid_to (e_feepool (ec (w_eng w))) msgs = 0.
+Proof. exact withdraw_no_fee. Qed.
+Print Assumptions C12_withdraw_no_fee.
+Theorem C12_funding_no_fee : forall w pf vamm w' msgs,
+  pay_funding_reply w pf vamm = Ok (w', msgs) -> e_ifund (ec (w_eng w)) <> e_feepool (ec (w_eng w)) ->
+  paid_to (e_feepool (ec (w_eng w))) msgs = 0.
+Proof. exact pay_funding_no_fee. Qed.
+Print Assumptions C12_funding_no_fee.
+Theorem C12_liquidation_no_fee : forall w i o w' msgs liq,
+  liquidate_reply w i o = Ok (w', msgs) -> e_liq (w_eng w) = Some liq ->
+  liq <> e_feepool (ec (w_eng w)) -> e_ifund (ec (w_eng w)) <> e_feepool (ec (w_eng w)) ->
+  paid_to (e_feepool (ec (w_eng w))) msgs = 0.
+Proof. exact liquidate_reply_no_fee. Qed.
+Print Assumptions C12_liquidation_no_fee.
+Theorem C12_partial_liquidation_no_fee : forall w i o w' msgs liq,
+  partial_liquidation_reply w i o = Ok (w', msgs) -> e_liq (w_eng w) = Some liq ->
+  liq <> e_feepool (ec (w_eng w)) -> e_ifund (ec (w_eng w)) <> e_feepool (ec (w_eng w)) ->
+  paid_to (e_feepool (ec (w_eng w))) msgs = 0.
+Proof. exact partial_liquidation_reply_no_fee. Qed.
+Print Assumptions C12_partial_liquidation_no_fee.
